@@ -159,7 +159,7 @@ def _order(repo, rep):
     rep.check(ok, "R17.1", site, "then the XML declaration", "decl-second",
               where=wh)
     if ok:
-        t = " ".join(src(s) for s in ifs[0].body)
+        t = L.text(ifs[0], body_only=True)
         rep.check("read_xml_encoding(body) or default_encoding" in t and
                   "content_type = 'text/xml'" in t, "R17.1", site,
                   "an XML declaration gives text/xml and its encoding, else "
@@ -176,15 +176,45 @@ def _order(repo, rep):
               "decisions are returned", construct="return", where=wh,
               detail=src(last)[:90])
     de = repo.func(U + "detect_encoding")
-    t = " ".join(src(s) for s in ast.walk(de.node)
-                 if isinstance(s, ast.stmt))
+    t = L.text(de.node)
     rep.check("RE_META.search(body)" in t and
               "return (None, default_encoding)" in t, "R17.1", de.qualname,
               "meta charset if present, else (None, default)",
               construct="detect", where=L.where(de))
+    # the whole document is searched, bytes or str: the searched value is
+    # the parameter or a decode of it -- never a slice, never a bounded search
+    calls = [n for n in ast.walk(de.node) if isinstance(n, ast.Call)
+             and isinstance(n.func, ast.Attribute) and n.func.attr in (
+                 "search", "match", "finditer", "findall")
+             and src(n.func.value) == "RE_META"]
+    param = de.node.args.args[0].arg if de.node.args.args else None
+    whole = len(calls) == 1 and len(calls[0].args) == 1 and \
+        not calls[0].keywords and calls[0].func.attr == "search" and \
+        isinstance(calls[0].args[0], ast.Name)
+    detail = ""
+    if whole:
+        var = calls[0].args[0].id
+        defs = [n.value for n in ast.walk(de.node)
+                if isinstance(n, ast.Assign) and any(
+                    isinstance(x, ast.Name) and x.id == var
+                    for x in n.targets)]
+        if var != param and not defs:
+            whole = False
+        for d in defs:
+            base = d
+            while isinstance(base, ast.Call) and isinstance(
+                    base.func, ast.Attribute) and base.func.attr in (
+                        "decode",):
+                base = base.func.value
+            if not (isinstance(base, ast.Name) and base.id in (param, var)):
+                whole = False
+                detail = "searched value is " + src(d)
+    rep.check(whole, "R17.1", de.qualname, "the meta charset is looked for in "
+              "the whole document, for bytes and str alike (the searched "
+              "value is the parameter or its decoding, not a slice)",
+              construct="detect-whole-body", where=L.where(de), detail=detail)
     xe = repo.func(U + "read_xml_encoding")
-    t = " ".join(src(s) for s in ast.walk(xe.node)
-                 if isinstance(s, ast.stmt))
+    t = L.text(xe.node)
     rep.check("RE_ENCODING.search(body)" in t and "return None" in t and
               "body.startswith(b'<?xml')" in t, "R17.1", xe.qualname,
               "the declared encoding is read from a document that starts "
@@ -280,7 +310,7 @@ def _order(repo, rep):
 def _mode(repo, rep):
     rb = repo.func(U + "read_bytes")
     site = rb.qualname
-    t = " ".join(src(s) for s in ast.walk(rb.node) if isinstance(s, ast.stmt))
+    t = L.text(rb.node)
     rep.check("'text/xml' if document.startswith('<?xml') else None" in t,
               "R17.3", site, "a BOM-carrying document is XML iff, after "
               "decoding, it starts with an XML declaration",
@@ -289,8 +319,7 @@ def _mode(repo, rep):
                       ("chameleon.template.BaseTemplateFile.read",
                        "read_bytes")):
         f = repo.func(q)
-        t = " ".join(src(s) for s in ast.walk(f.node)
-                     if isinstance(s, ast.stmt))
+        t = L.text(f.node)
         rep.check("self.content_type = content_type or "
                   "self.default_content_type" in t and
                   "self.content_encoding = encoding" in t and
@@ -298,7 +327,7 @@ def _mode(repo, rep):
                   "the sniffing result is stored on the template",
                   construct="stored", where=L.where(f))
     w = repo.func("chameleon.template.BaseTemplate.write")
-    t = " ".join(src(s) for s in ast.walk(w.node) if isinstance(s, ast.stmt))
+    t = L.text(w.node)
     rep.check("body.startswith('<?xml')" in t and
               "content_type = 'text/xml'" in t, "R17.3", w.qualname,
               "a str document is XML iff it starts with an XML declaration",
@@ -344,7 +373,7 @@ def _mode(repo, rep):
     guards = [n for n in ast.walk(p.node) if isinstance(n, ast.If)
               and src(n.test) == "self.content_type != 'text/xml'"]
     ok = len(guards) == 1
-    inside = " ".join(src(s) for s in guards[0].body) if ok else ""
+    inside = L.text(guards[0], body_only=True) if ok else ""
     rep.check(okn and okb, "R17.3", p.qualname,
               "implicit boolean attributes and newline rewriting are HTML-"
               "only (guarded by content_type != 'text/xml')",
